@@ -4,6 +4,7 @@ Dense matrices of the blocks are built column by column through `mv` only (oracl
 as_matrix overrides; the block operators' own `mv`, `as_matrix`, `.T`, `.I`, structures, constructors and rules are
 the observables.  Witness first (container arity / nesting taken from the counter-model when present), then a seeded
 family of containers (lists, tuples, dicts, nested, a single block, pytree-valued blocks)."""
+import itertools
 import time
 
 import jax
@@ -220,7 +221,25 @@ def constructor_cases(rng):
             fails.append(f'{name}: expected ValueError, got {raised}')
         if not must_raise and raised is not None:
             fails.append(f'{name}: refused with {raised} although the shared structures agree')
-    return fails
+    # shared structures that are pytrees: the same leaves in a different container are different structures
+    from furax._base.core import IdentityOperator
+    trees = {'tuple': (s, t), 'list': [s, t], 'dict iq': {'i': s, 'q': t}, 'dict qu': {'q': s, 'u': t}, 'nested': ((s,), t),
+             'weak dtype twin': (K.S((3,), F32), K.S((2,), F32))}
+    for (na, ta), (nb, tb) in itertools.permutations(trees.items(), 2):
+        same = jax.tree.structure(ta) == jax.tree.structure(tb)
+        for cname, cls in (('Row', BlockRowOperator), ('Col', BlockColumnOperator)):
+            for blocks in ([IdentityOperator(ta), IdentityOperator(tb)], {'x': IdentityOperator(ta), 'y': IdentityOperator(ta),
+                                                                          'z': IdentityOperator(tb)}):
+                try:
+                    cls(blocks)
+                    raised = None
+                except Exception as e:      # noqa: BLE001
+                    raised = type(e).__name__
+                if not same and raised != 'ValueError':
+                    fails.append(f'{cname}[shared structure {na} vs {nb}]: expected ValueError, got {raised}')
+                if same and raised is not None:
+                    fails.append(f'{cname}[shared structure {na} vs {nb}]: refused with {raised} although the structures are equal')
+    return fails[:8]
 
 
 def rule_cases(rng):
